@@ -11,9 +11,12 @@ META = dict(
          "push, bytes inside push data are data) is transcribed over token sequences. TLC enumerates feature vectors (coinbase position / multiplicity, "
          "BIP34 height encodings at heights around every encoding-length boundary and around the activation height, weight 3,999,999 / 4,000,000 / "
          "4,000,001 reached with witness or non-witness bytes, stripped size 999,999 / 1,000,000 / 1,000,001, sigop cost 79,996 / 79,999 / 80,000 / "
-         "80,001 / 80,004 composed from mixtures of eleven counted and seven uncounted placements, both limits at once), proves accept <=> statement "
+         "80,001 / 80,004 composed from mixtures of eleven counted and seven uncounted placements, both limits at once; the sigop and weight boundaries "
+         "again in the configuration 'script verification skipped' (assumed-valid), with the TLC-checked theorem that the verdict does not depend on it), "
+         "proves accept <=> statement "
          "(and the rules the statement is silent on) on that domain, and every row is built as a real block on an in-process regtest node and judged by "
-         "TestBlockValidity and ProcessNewBlock. Every token sequence up to length 3 over a small alphabet is also replayed in every role directly on "
+         "TestBlockValidity and ProcessNewBlock (the 'scripts skipped' rows on a fresh node per row whose -assumevalid block sits 2020 headers above the "
+         "block, each block carrying a failing-script spend that proves the skip). Every token sequence up to length 3 over a small alphabet is also replayed in every role directly on "
          "CScript::GetSigOpCount, GetLegacySigOpCount, GetP2SHSigOpCount, CountWitnessSigOps and GetTransactionSigOpCost.",
     note="Compared: accept / reject of both entry points and the block's total sigop cost; a different reject reason is only counted (rule order is not "
          "part of the statement). The transaction-count bound (count x 4 <= 4,000,000) and the stripped-size bound are implied by the weight bound for any "
@@ -27,7 +30,7 @@ META = dict(
 
 REASONS = ("ok", "bad-blk-length", "bad-cb-missing", "bad-cb-multiple", "bad-txns-prevout-null", "bad-txns-inputs-duplicate", "bad-txns-vout-empty",
            "bad-cb-length", "bad-blk-sigops", "bad-txns-nonfinal", "bad-cb-height", "bad-witness-nonce-size", "bad-witness-merkle-match",
-           "unexpected-witness", "bad-blk-weight")
+           "unexpected-witness", "bad-blk-weight", "script-failed")
 JOBS = int(os.environ.get("VERIF_JOBS", "0") or 0) or None
 
 
@@ -49,6 +52,13 @@ def check_vacuity(rows):
         "sigops 79,999 accepted": lambda r: r["cost"] == 79999 and r["res"] == "ok",
         "BIP34 inactive, wrong height accepted": lambda r: r["fam"] == "bip34off" and r["h"] < r["bip34"] and r["fv"]["enc"] != "ok" and r["res"] == "ok",
         "BIP34 first active height, wrong height rejected": lambda r: r["fam"] == "bip34off" and r["h"] == r["bip34"] and r["res"] == "bad-cb-height",
+        # the same boundaries with script verification skipped (assumed-valid), the excess coming from P2SH / witness sigops only
+        "scripts skipped: sigops 80,000 accepted": lambda r: r["skip"] and r["cost"] == 80000 and r["res"] == "ok",
+        "scripts skipped: 80,001 via P2SH rejected": lambda r: r["skip"] and r["cost"] == 80001 and r["fv"]["mix"] == ["p2sh"] and r["res"] == "bad-blk-sigops",
+        "scripts skipped: 80,001 via P2WSH rejected": lambda r: r["skip"] and r["cost"] == 80001 and r["fv"]["mix"] == ["p2wsh"] and r["res"] == "bad-blk-sigops",
+        "scripts skipped: 80,004 via P2SH-P2WSH rejected": lambda r: r["skip"] and r["cost"] == 80004 and r["fv"]["mix"] == ["p2shwsh"] and r["res"] == "bad-blk-sigops",
+        "scripts skipped: weight 4,000,000 accepted": lambda r: r["skip"] and r["weight"] == 4000000 and r["res"] == "ok",
+        "scripts skipped: weight 4,000,001 rejected": lambda r: r["skip"] and r["weight"] == 4000001 and r["res"] == "bad-blk-weight",
     }
     for what, pred in need.items():
         if not any(pred(r) for r in rows):
@@ -100,6 +110,12 @@ def run(ctx):
     ctx.extra["block_rows_per_expected_result"] = dict(by_res)
     ctx.extra["block_rows_per_family"] = dict(collections.Counter(r["fam"] for r in rows))
     ctx.extra["blocks_built_at_size_targets"] = int(res_b["summary"].get("blocks_padded", 0))
+    n_skip = sum(1 for r in rows if r["skip"])
+    ctx.extra["rows_judged_with_scripts_skipped"] = int(res_b["summary"].get("rows_on_assumed_valid_node", 0))
+    ctx.extra["blocks_connected_with_scripts_skipped"] = int(res_b["summary"].get("blocks_connected_with_scripts_skipped", 0))
+    if not ctx.violations and (ctx.extra["rows_judged_with_scripts_skipped"] != n_skip or not ctx.extra["blocks_connected_with_scripts_skipped"]):
+        raise vflib.InfraError("vacuity: %d of %d rows ran on the assumed-valid node, %d blocks were connected with scripts skipped" % (
+            ctx.extra["rows_judged_with_scripts_skipped"], n_skip, ctx.extra["blocks_connected_with_scripts_skipped"]))
     ctx.extra["reject_reason_differs_from_first_violated_rule"] = int(res_b["summary"].get("reason_differs", 0))
     ctx.extra["accepted_despite_rule_outside_C06"] = int(res_b["summary"].get("accepted_other_rule_violation", 0))
     dev = collections.Counter(d.get("why", "")[:160] for d in res_b["deviations"])
